@@ -155,7 +155,8 @@ EnterSlow(l) ==
   ELSE Goto(l, "fpn.load_sent")
 
 \* the slow path returned Err: retry loop of alloc_*_in (837, 845, 992, 1005, 1146, 1157)
-SlowErr(l) == IF l.i = MaxRetries - 1 THEN Done(l, "err") ELSE EnterSlow([l EXCEPT !.i = l.i + 1])
+\* (as found the test was i = max_retries - 1 in u8: a budget of 0 underflowed -- panic / 255 retries; repaired in 246b4e4)
+SlowErr(l) == IF l.i + 1 >= MaxRetries THEN Done(l, "err") ELSE EnterSlow([l EXCEPT !.i = l.i + 1])
 
 \* Meta post-processing after a successful slow path, per call kind (align_to / align_bytes_to, lib.rs:889-900)
 FinalMeta(l) ==
